@@ -139,7 +139,12 @@ sb_error_t sb_binary_file_read_current_block_ex(
             sb_free(buf_alloc);
         }
     } else {
-        /* we already have the entire block in memory so we return a view into it */
+        /* we already have the entire block in memory so we return a view into
+         * it, provided that there is a block and its body is really there */
+        if (!sb_binary_file_is_current_block_valid(parser) || block.start_of_body + block.length > parser->buf_end - parser->buf) {
+            return SB_EREAD;
+        }
+
         retval = SB_SUCCESS;
         *buf = ((uint8_t*)parser->buf) + block.start_of_body;
         *size = block.length;
